@@ -63,6 +63,10 @@ def build(case):
     return t, nodes
 
 
+class OutputFormatError(Exception):
+    """the exporter's output is not a graph description (decided on the text alone - a finding, not a harness error)"""
+
+
 def parse_dot(lines):
     """Tolerant reader of the emitted DOT subset: `key [attrs]` and `a -> b [attrs]` statements
     (any indentation, optional quotes around ids, optional trailing semicolon)."""
@@ -89,7 +93,7 @@ def parse_dot(lines):
                 lab = mm.group(1) if mm else None
             nodes.setdefault(m.group(1), set()).add(lab)
             continue
-        raise ValueError(f"unparsable DOT line {ln!r}")
+        raise OutputFormatError(f"DOT output contains a line that is neither a node, an edge nor an attribute statement: {ln!r}")
     return nodes, edges
 
 
@@ -101,7 +105,7 @@ def parse_mermaid(text):
         m = re.fullmatch(r'(\d+)\("(.*)"\)', ln)
         if m:
             if m.group(1) in names:
-                raise ValueError(f"mermaid node {m.group(1)} defined twice")
+                raise OutputFormatError(f"Mermaid output defines graph node {m.group(1)} twice (as {names[m.group(1)]!r} and as {m.group(2)!r}): two tree nodes share one graph node")
             names[m.group(1)] = m.group(2)
             continue
         m = re.fullmatch(r'(\d+)\{\{"(.*)"\}\}', ln)
@@ -344,6 +348,16 @@ def run_case(case, res):
                 fresh_other = attempt(lambda: list(pt.to_dot(**_copy.deepcopy(kw_before))))
                 if again_other != fresh_other:
                     bad.append(f"an export of another tree with attribute dicts that were used before differs from one with fresh dicts ({kw_before!r})")
+            # DOT mappers that only *add* an attribute - editing the dict in place, or handing back a new dict that still holds
+            # everything they were given: the described graph (labels, kinds on the edges) stays the same
+            for kwd in ({"edge_mapper": lambda n, d: {**d, "color": "red"}}, {"edge_mapper": lambda n, d: d.update(color="red")},
+                        {"node_mapper": lambda n, d: {**d, "color": "red"}}, {"node_mapper": lambda n, d: d.update(color="red")},
+                        {"node_mapper": lambda n, d: {**d, "shape": "box"}, "edge_mapper": lambda n, d: {**d, "style": "dashed"}}):
+                gd = attempt(lambda: parse_dot(list(t.to_dot(**kwd))))
+                res.count("dot_adding_mappers")
+                if gd != base_dot:
+                    bad.append(f"to_dot({'+'.join(sorted(kwd))} that only adds an attribute) describes another graph than the default call: "
+                               f"{gd!r} vs {base_dot!r}"[:900])
             tmpd = _tf.mkdtemp(prefix="vmon-c17-")
             try:
                 pth = _os.path.join(tmpd, "g.md")
@@ -367,6 +381,8 @@ def run_case(case, res):
             r = attempt(lambda: t.to_dotfile(fp))
             if isinstance(r, tuple) or fp.getvalue() != "".join(l + "\n" for l in t.to_dot()):
                 bad.append(f"to_dotfile(stream) differs from to_dot(): {r!r}")
+    except OutputFormatError as e:
+        bad.append(str(e))
     except CaseTimeout:
         res.inconc("case watchdog fired")
         return
